@@ -42,19 +42,31 @@ def proj(st):
     }
 
 
-def header(mode, grain):
+def proj_alloc(st):
+    """reduced observation (header obs=alloc, used by C20): the storage's heap traffic only"""
+    fr = st["fr"] if isinstance(st["fr"], list) else []
+    return {"news": st["news"], "dels": st["dels"], "live": sum(1 for x in st["heap"] if x),
+            "where": [f["where"] for f in fr], "bad": []}
+
+
+def header(mode, grain, obs="full"):
+    """Shape family of the scenario's coroutines (the model is the same for all, sizes are abstract): 0 bodies with
+    local arrays, 1 the same + 8 bytes (the other residue of the frame size modulo 16), 2/3 the library's
+    callback_await_coro created through callback_await_alloc<Policy> (the with_allocator path scheduler.h uses) with a
+    callback of three sizes (+ 8).  Two-thread scenarios use 0/1 (the future of 2/3 has scheduling points of its own)."""
     def hdr(k, st0):
         return {"policy": st0["env"]["pol"], "mode": mode, "grain": grain, "kill": "destroy" if k % 3 == 2 else "finish",
-                "init": st0["env"]["init"], "nslots": NSLOTS}
+                "init": st0["env"]["init"], "nslots": NSLOTS, "fam": k % (2 if mode == "mt" else 4), "obs": obs}
     return hdr
 
 
-def run_cfg(ctx, rp, tag, cfg, consts, mode, must, max_paths=None):
+def run_cfg(ctx, rp, tag, cfg, consts, mode, must, max_paths=None, obs="full", extra_random=0):
     grain = consts["Grain"].strip('"')
     consts = dict(consts)
     consts["NSlots"] = NSLOTS
-    return graph_replay(ctx, SPEC, SPEC, cfg, tag, rp, proj, header_fn=header(mode, grain), constants=consts,
-                        must_take=must, max_paths=max_paths, tlc_kw={"workers": WORKERS})
+    return graph_replay(ctx, SPEC, SPEC, cfg, tag, rp, proj_alloc if obs == "alloc" else proj,
+                        header_fn=header(mode, grain, obs), constants=consts,
+                        must_take=must, max_paths=max_paths, extra_random=extra_random, tlc_kw={"workers": WORKERS})
 
 
 def probe_grow(rp):
@@ -65,12 +77,45 @@ def probe_grow(rp):
     return m.group(1)   # delete_new | new_delete | unknown (neither: the replay will tell)
 
 
+def alloc_replay(ctx):
+    """C20 hook: coroutine frames "disappear under a non-heap storage policy" -- after warm-up the reusing policies
+    make no further operator new call.  A small slice of Storage.tla (stack_storage in learning mode: shared state 0,
+    then second and later uses; reusable_storage and reusable_storage_mtsafe: every order of up to 4 frames of three
+    sizes, BIG-small-BIG included, two live at a time where permitted) is checked by TLC (WarmNoAlloc,
+    CompleteNoAlloc, HeapFallbackFreedOnce) and every edge is replayed on the real policies with the heap traffic as
+    the compared observation: operator new / delete calls made by the storage so far, blocks alive, and whether
+    each frame lies in a heap block.  The coroutines alternate between four shape families: frame sizes that are
+    and are not multiples of 16, each as a plain with_allocator coroutine and as the library's callback_await_coro
+    created through callback_await_alloc<Policy> (the path scheduler.h takes with stack_storage).
+    Violations are registered in ctx (they appear under the calling property)."""
+    # own binary (a C19 run may be building its replayer at the same time), reduced to the three reusing policies and
+    # without sanitizers in both tiers: the observation is a count, and the build is most of this function's cost
+    rp = vlib.compile_harness(os.path.join(vlib.VERIF, "harness/storage_replay.cpp"), "storage_replay_" + ctx.prop.lower(),
+                              sanitize=False, defines=["STORAGE_REPLAY_REUSING_ONLY"])
+    rc, out = vlib.run_cmd([rp, "--sizes"], timeout=60)
+    if rc != 0:
+        raise vlib.MachineryError("frame sizes of the body shapes cannot be classified: " + out[-500:])
+    sizes = [l for l in out.splitlines() if l.startswith("SIZES")]
+    ctx.extra["storage_frame_sizes"] = sizes
+    fixed = probe_grow(rp) != "delete_new"
+    c = {"Policies": '{"stack", "reusable", "mtsafe"}', "MaxCreate": 4, "MaxOverlap": 2, "Grain": '"call"',
+         "Fixed": "TRUE" if fixed else "FALSE", "StackInits": "{0}", "BufferInits": "{0}", "PlaceInits": "{300}"}
+    # the shape family follows the scenario number: the random walks on top of the edge cover put every short
+    # history under several families
+    run_cfg(ctx, rp, "stor_alloc", "Storage_seq.cfg", c, "seq", ["Create", "Complete", "Teardown"], obs="alloc",
+            extra_random=800)
+    ctx.assume("storage policies: heap traffic is every global operator new / delete call made inside the creation, "
+               "completion and destruction of coroutines on stack_storage (one storage object and alloca buffer per call, "
+               "shared state starting at 0), reusable_storage and reusable_storage_mtsafe (one thread); frame sizes are the "
+               "compiler's for 12 shapes: " + "; ".join(x[6:] for x in sizes))
+
+
 def run(ctx):
     rp = vlib.compile_harness(os.path.join(vlib.VERIF, "harness/storage_replay.cpp"), "storage_replay",
                               sanitize=not ctx.quick)
     rc, out = vlib.run_cmd([rp, "--sizes"], timeout=60)
     if rc != 0:
-        raise vlib.MachineryError("frame sizes of the three body shapes cannot be classified: " + out[-500:])
+        raise vlib.MachineryError("frame sizes of the body shapes cannot be classified: " + out[-500:])
     ctx.extra["observed_frame_sizes"] = [l for l in out.splitlines() if l.startswith("SIZES")]
 
     # Both orders in which reusable_storage::alloc can grow (release the old block first / publish the new
@@ -122,7 +167,8 @@ def run(ctx):
         res = ctx.tlc(SPEC, SPEC, demo, "mt2alloc_cex", workers=1)
         if not res.violation:
             raise vlib.MachineryError("release-first model expected to violate Exclusive at allocator grain")
-        hdr = {"policy": "mtsafe", "mode": "mt", "grain": "alloc", "kill": "finish", "init": 0, "nslots": NSLOTS}
+        hdr = {"policy": "mtsafe", "mode": "mt", "grain": "alloc", "kill": "finish", "init": 0, "nslots": NSLOTS,
+               "fam": 0, "obs": "full"}
         followed, out, text = replay_tlc_trace(ctx, res, rp, proj, hdr, "mt2alloc")
         if not followed:
             # In the last state the model has two live frames in one block; the replayer then reports, from
@@ -150,8 +196,10 @@ def run(ctx):
             ctx.violation("diverge:Storage:mt2alloc_cex", "implementation diverges from the release-first model of "
                           "Storage at allocator grain: " + out[-600:], text + "#" + out.replace("\n", "\n#") + "\n")
 
-    ctx.assume("frame sizes are compiler-determined: the three body shapes (local arrays of 16/256/1024 bytes) are "
-               "observed and classified small/medium/large; sizes in between are not quantified over")
+    ctx.assume("frame sizes are compiler-determined: four families of three shapes (bodies with local arrays of 16/256/1024 "
+               "bytes, the same + 8 bytes, and callback_await_alloc's coroutine with callbacks of those sizes) are observed "
+               "and classified small/medium/large, scenarios alternate between the families; sizes in between are not "
+               "quantified over")
     ctx.assume("reusable_storage, placement_alloc and reusable_buffer_storage serve one live frame at a time and "
                "placement_alloc's buffer is large enough (documented preconditions): no overlapping lifetimes are "
                "generated for them; default, mtsafe, stack (one storage object + alloca buffer per call, as "
